@@ -844,10 +844,14 @@ func (fx *FnExec) evalIdent(name string, env *evalEnv) (cval, error) {
 		}
 	}
 	// local variable of the function: a phi named after the source variable
-	if v := fx.localByName(name, env.loop); v != nil {
-		return fx.cvalOf(fx.val(v)), nil
+	// at a call site the name means the variable's value there: the latest definition or merge
+	// that dominates the call
+	if env.at != nil {
+		if v := fx.localAt(name, env.at); v != nil {
+			return fx.cvalOf(fx.val(v)), nil
+		}
 	}
-	if v := fx.localAt(name, env.at); v != nil {
+	if v := fx.localByName(name, env.loop); v != nil {
 		return fx.cvalOf(fx.val(v)), nil
 	}
 	return cval{}, fmt.Errorf("unknown name %q", name)
@@ -860,25 +864,76 @@ func (fx *FnExec) localAt(name string, at *ssa.BasicBlock) ssa.Value {
 	if at == nil {
 		return nil
 	}
-	var best *ssa.Phi
+	// candidates: every SSA value the debug information binds to the name (definitions and
+	// merges), defined in a block that dominates the program point
+	type cand struct {
+		v   ssa.Value
+		blk *ssa.BasicBlock
+		idx int
+	}
+	var cands []cand
+	seen := map[ssa.Value]bool{}
+	add := func(v ssa.Value) {
+		if v == nil || seen[v] {
+			return
+		}
+		seen[v] = true
+		in, ok := v.(ssa.Instruction)
+		if !ok {
+			return // parameters are resolved before locals
+		}
+		b := in.Block()
+		if b == nil || !(b == at || b.Dominates(at)) {
+			return
+		}
+		idx := 0
+		for i, x := range b.Instrs {
+			if x == in {
+				idx = i
+			}
+		}
+		cands = append(cands, cand{v, b, idx})
+	}
 	for _, b := range fx.Fn.Blocks {
 		for _, in := range b.Instrs {
-			phi, ok := in.(*ssa.Phi)
-			if !ok || phi.Comment != name || !(b == at || b.Dominates(at)) {
-				continue
-			}
-			if best == nil || best.Block().Dominates(b) {
-				best = phi
+			switch x := in.(type) {
+			case *ssa.Phi:
+				if x.Comment == name {
+					add(x)
+				}
+			case *ssa.DebugRef:
+				if x.IsAddr {
+					continue
+				}
+				if id, ok := x.Expr.(*ast.Ident); ok && id.Name == name {
+					if _, isConst := x.X.(*ssa.Const); !isConst {
+						add(x.X)
+					}
+				}
 			}
 		}
 	}
-	if best == nil {
+	if len(cands) == 0 {
 		return nil
 	}
-	// a definition between that merge point and the program point would make the phi stale: only
-	// accept it if no other phi of that name lies on a path in between (conservative: none reachable
-	// from best's block that can reach `at`, other than best itself, handled by the dominance choice)
-	return best
+	best := cands[0]
+	for _, c := range cands[1:] {
+		switch {
+		case c.blk == best.blk:
+			if c.idx > best.idx {
+				best = c
+			}
+		case best.blk.Dominates(c.blk):
+			best = c
+		}
+	}
+	// a definition in the program point's own block that comes after the point cannot be told from
+	// one before it here; clauses are evaluated at calls, and values defined later in the same block
+	// are not yet in the register file, which makes the evaluation fail rather than go stale
+	if _, ok := fx.regs[best.v]; !ok {
+		return nil
+	}
+	return best.v
 }
 
 // localByName finds the SSA phi that carries the source variable `name`, preferring the one at the
